@@ -242,17 +242,17 @@ func c12Run(env *verifsim.Env, raw json.RawMessage) *verifsim.Violation {
 	password := map[string][]c12Write{}
 	rotations := map[string][]c12Write{} // session-epoch rotations (password set, delete)
 	var sessions []*c12Session
-	deleted := map[string][]c12Write{}  // session id -> delete ops
-	successes := map[string][]string{}  // one-time session id -> successful presentations
+	deleted := map[string][]c12Write{} // session id -> delete ops
+	successes := map[string][]string{} // one-time session id -> successful presentations
 	type authRec struct {
-		kind       string
-		user       string
-		pw         string
-		sess       *c12Session
-		call, ret  int64
-		at         time.Time
-		ok         bool
-		gotUser    string
+		kind      string
+		user      string
+		pw        string
+		sess      *c12Session
+		call, ret int64
+		at        time.Time
+		ok        bool
+		gotUser   string
 	}
 	var auths []authRec
 
